@@ -40,6 +40,13 @@ def run(res, tier):
     run_kani_part(res, SPEC, tier)
     # M part: update() plumbing
     E = mprop.engine(res)
+    check_update_plumbing(res, E)
+    mprop.finish_engine(res, E)
+
+
+def check_update_plumbing(res, E):
+    """SharedHistory::update: delta computed whenever a current snapshot exists, pushed iff constructed, and the
+    returned flag is true whenever a delta was pushed (C17 relies on the flag for its notification)."""
     body = E.prog.find("src/payload/history.rs", "SharedHistory", "update")
     res.functions.append("routinator::payload::history::SharedHistory::update (MIR, %d blocks)" % len(body.blocks))
     paths = E.explore(body, max_visits=2, log_enabled=True)
@@ -100,4 +107,3 @@ def run(res, tier):
         res.inconclusive.append("vacuity: SharedHistory::update has %d returning paths" % n)
     res.distinct += n
     res.extra["update_paths"] = len(paths)
-    mprop.finish_engine(res, E)
